@@ -3,6 +3,7 @@
 -/
 import EpsModel.Lemmas.Prefix3
 import EpsModel.Lemmas.TopLevel
+import EpsModel.Loaders
 namespace Eps.C11
 open Eps
 
@@ -82,6 +83,21 @@ theorem prefix_body_full (T : Ty) (v : Val) (hT : T.wf = true) (hv : T.wt v = tr
 theorem prefix_body_eps (base : Nat) (T : Ty) (v : Val) (hT : T.wf = true) (hv : T.wt v = true) (pos : Nat) (p : B)
     (h : SPre p (T.enc v pos)) : ∀ x, T.decEps base p pos ≠ .ok x :=
   (Ty.trunc base T hT v hv).2.2 pos p h
+
+/-! ### The file-backed entry points that do not zero-extend -/
+
+/-- `load_full` reads the file through a `BufReader`: a file cut at any point gives a read error. -/
+theorem file_prefix_load_full (H : B → Nat) (hH : ∀ b, H b < 2^64) (T : Ty) (name : B) (v : Val) (file : B)
+    (hT : T.wf = true) (hv : T.wt v = true) (hname : validUtf8 name = true) (hlen : name.length < 2^63)
+    (h : SPre file (T.ser H name v)) : T.deFull H file = .err .readError :=
+  prefix_full H hH T name v file hT hv hname hlen h
+
+/-- `mmap` of a truncated file: the backing region is the file itself (no zero extension), and
+    ε-copy deserialization of it, wherever the mapping is placed, never returns a structure. -/
+theorem file_prefix_mmap (H : B → Nat) (hH : ∀ b, H b < 2^64) (T : Ty) (name : B) (v : Val) (file : B) (base : Nat)
+    (hT : T.wf = true) (hv : T.wt v = true) (hname : validUtf8 name = true) (hlen : name.length < 2^63)
+    (h : SPre file (T.ser H name v)) : ∀ x, T.deEps H base (regionOf .map file) ≠ .ok x :=
+  prefix_eps H hH T name v (regionOf .map file) base hT hv hname hlen h
 
 /-- Non-vacuity: a 3-byte cut of a 4-byte integer is a strict prefix. -/
 example : SPre [1, 0, 0] ((Ty.prim (.int .u32)).enc (.bits 1) 0) := ⟨[0], by simp, by simp [Ty.enc, leBytes, Prim.size, IntK.size]⟩
